@@ -1,5 +1,5 @@
 /-
-C15 — Settable bookkeeping (`last_request`, following), `GetterFromHistory` offsets, `ConstantGetter`,
+C15 — Settable bookkeeping (`last_request`, following — including WHICH getter is followed), `GetterFromHistory` offsets, `ConstantGetter`,
 `TimeGetterFromGetter`.  Tier S throughout: the payload type `T` is arbitrary, clocks and offsets are `Int`
 (the property quantifies over clock values / offsets that do not overflow).
 -/
@@ -12,50 +12,61 @@ open Rrtk
 
 variable {T : Type}
 
-/-! ## A. the recording settable over arbitrary operation sequences -/
+/-! ## A. the recording settable over arbitrary operation sequences
 
-/-- The operation alphabet of the recording settable. The scripted result of `impl_set` (`acc`), the scripted output
-of the followed getter (`g`) and the scripted result of the settable's own `update` body (`iu`) are carried by the
-operation; a change of the followed getter's output is simply a different `g` in the next `update`. -/
+Getters that can be followed are numbered (`Nat`); the settable's data remember WHICH one is followed
+(`SettableS.following : Option Nat`), and an update is given the present output of every getter
+(`gs : Nat → Output T`). -/
+
+/-- The operation alphabet of the recording settable. The scripted result of `impl_set` (`acc`), the scripted outputs
+of all getters (`gs i` = what getter number `i` returns now) and the scripted result of the settable's own `update`
+body (`iu`) are carried by the operation; a change of a getter's output is simply a different `gs` in the next
+`update`. `follow g` names the getter to follow. -/
 inductive Op (T : Type) where
   | set (v : T) (acc : UpdRet)
-  | follow
+  | follow (g : Nat)
   | stopFollowing
-  | update (g : Output T) (acc : UpdRet) (iu : UpdRet)
+  | update (gs : Nat → Output T) (acc : UpdRet) (iu : UpdRet)
 
 /-- one operation on the settable's data -/
 def step (s : SettableS T) : Op T → SettableS T
   | .set v acc => (s.set v acc).1
-  | .follow => s.follow
+  | .follow g => s.follow g
   | .stopFollowing => s.stopFollowing
-  | .update g acc iu => (s.recUpdate g acc iu).1
+  | .update gs acc iu => (s.recUpdate gs acc iu).1
 
 /-- a finite operation sequence, of any length -/
 def run (s : SettableS T) (ops : List (Op T)) : SettableS T := ops.foldl step s
 
-/-- the `following` flag after one operation (specification side) -/
-def nextFlag (f : Bool) : Op T → Bool
-  | .follow => true
-  | .stopFollowing => false
+/-- the followed getter after one operation (specification side): `follow g` REPLACES it by `g` -/
+def nextFlag (f : Option Nat) : Op T → Option Nat
+  | .follow g => some g
+  | .stopFollowing => none
   | _ => f
 
-/-- the `following` flag after an operation sequence (specification side): decided by the last
+/-- the followed getter after an operation sequence (specification side): decided by the last
 `follow`/`stop_following` in the list -/
-def flagAfter (f : Bool) : List (Op T) → Bool
+def flagAfter (f : Option Nat) : List (Op T) → Option Nat
   | [] => f
   | op :: rest => flagAfter (nextFlag f op) rest
 
-/-- the value an operation successfully sets, when executed with following flag `f`: a direct `set` that `impl_set`
-accepts, or an `update` executed while following whose getter has a present value that `impl_set` accepts -/
-def succVal (f : Bool) : Op T → Option T
+/-- the value of a present getter output; absent values and errors have none -/
+def presentVal : Output T → Option T
+  | .ok (some d) => some d.value
+  | _ => none
+
+/-- the value an operation successfully sets, when executed while following `f`: a direct `set` that `impl_set`
+accepts, or an `update` executed while following getter `i` whose output `gs i` is a present value that `impl_set`
+accepts (the outputs of the other getters are irrelevant) -/
+def succVal (f : Option Nat) : Op T → Option T
   | .set v (.ok _) => some v
-  | .update (.ok (some d)) (.ok _) _ => if f then some d.value else none
+  | .update gs (.ok _) _ => match f with | some i => presentVal (gs i) | none => none
   | _ => none
 
 /-- NON-incremental specification: the value of the LAST operation of the list that is a successful set (the later
-part of the list is consulted first; only if it has no successful set does the head count). `f` is the following flag
+part of the list is consulted first; only if it has no successful set does the head count). `f` is the followed getter
 before the list. -/
-def lastSuccessfulFrom (f : Bool) : List (Op T) → Option T
+def lastSuccessfulFrom (f : Option Nat) : List (Op T) → Option T
   | [] => none
   | op :: rest =>
     match lastSuccessfulFrom (nextFlag f op) rest with
@@ -63,17 +74,44 @@ def lastSuccessfulFrom (f : Bool) : List (Op T) → Option T
     | none => succVal f op
 
 /-- from the initial state (not following) -/
-def lastSuccessful (ops : List (Op T)) : Option T := lastSuccessfulFrom false ops
+def lastSuccessful (ops : List (Op T)) : Option T := lastSuccessfulFrom none ops
+
+/-- two getters: number 0 returns `a`, every other number returns `b` (used in the examples) -/
+def two (a b : Output T) : Nat → Output T
+  | 0 => a
+  | _ => b
 
 theorem run_nil (s : SettableS T) : run s [] = s := rfl
 theorem run_cons (s : SettableS T) (op : Op T) (ops : List (Op T)) : run s (op :: ops) = run (step s op) ops := rfl
 theorem run_append (s : SettableS T) (a b : List (Op T)) : run s (a ++ b) = run (run s a) b := by
   simp [run, List.foldl_append]
 
-theorem flagAfter_append (f : Bool) (a b : List (Op T)) : flagAfter f (a ++ b) = flagAfter (flagAfter f a) b := by
+theorem flagAfter_append (f : Option Nat) (a b : List (Op T)) :
+    flagAfter f (a ++ b) = flagAfter (flagAfter f a) b := by
   induction a generalizing f with
   | nil => rfl
   | cons op rest ih => exact ih _
+
+/-- **`update_following_data`, spelled out**: while following getter `i` it is decided by `gs i` alone — an error is
+returned, an absent value does nothing, a present value is handed to `set`; while not following nothing happens. -/
+theorem update_following_data_spec (s : SettableS T) (gs : Nat → Output T) (acc : UpdRet) :
+    (∀ i, s.following = some i →
+      s.updateFollowingData gs acc =
+        (match gs i with
+         | .error e => (s, none, .error e)
+         | .ok none => (s, none, .ok ())
+         | .ok (some d) => s.set d.value acc)) ∧
+    (s.following = none → s.updateFollowingData gs acc = (s, none, .ok ())) := by
+  constructor
+  · intro i hf
+    simp only [SettableS.updateFollowingData, hf]
+    cases gs i with
+    | error e => rfl
+    | ok o => cases o <;> rfl
+  · intro hf; simp only [SettableS.updateFollowingData, hf]
+
+example : (⟨some 1, some 1⟩ : SettableS Int).updateFollowingData (two (.ok (some ⟨0, 5⟩)) (.ok (some ⟨0, 6⟩))) (.ok ()) =
+    (⟨some 6, some 1⟩, some 6, .ok ()) := by rfl
 
 /-- what one operation does to the two fields -/
 theorem step_following (s : SettableS T) (op : Op T) : (step s op).following = nextFlag s.following op := by
@@ -81,12 +119,14 @@ theorem step_following (s : SettableS T) (op : Op T) : (step s op).following = n
   | mk lr fl =>
   cases op with
   | set v acc => cases acc <;> rfl
-  | follow => rfl
+  | follow g => rfl
   | stopFollowing => rfl
-  | update g acc iu =>
-    cases fl
-    · rfl
-    · cases g with
+  | update gs acc iu =>
+    cases fl with
+    | none => rfl
+    | some i =>
+      simp only [step, SettableS.recUpdate, SettableS.updateFollowingData, nextFlag]
+      cases gs i with
       | error e => rfl
       | ok o =>
         cases o with
@@ -99,24 +139,25 @@ theorem step_lastRequest (s : SettableS T) (op : Op T) :
   | mk lr fl =>
   cases op with
   | set v acc => cases acc <;> rfl
-  | follow => rfl
+  | follow g => rfl
   | stopFollowing => rfl
-  | update g acc iu =>
-    cases fl
-    · cases g with
-      | error e => rfl
-      | ok o =>
-        cases o with
-        | none => rfl
-        | some d => cases acc <;> rfl
-    · cases g with
-      | error e => rfl
-      | ok o =>
-        cases o with
-        | none => rfl
-        | some d => cases acc <;> rfl
+  | update gs acc iu =>
+    cases fl with
+    | none => cases acc <;> rfl
+    | some i =>
+      cases acc with
+      | error a =>
+        simp only [step, SettableS.recUpdate, SettableS.updateFollowingData, succVal]
+        cases gs i with
+        | error e => rfl
+        | ok o => cases o <;> rfl
+      | ok a =>
+        simp only [step, SettableS.recUpdate, SettableS.updateFollowingData, succVal]
+        cases gs i with
+        | error e => rfl
+        | ok o => cases o <;> rfl
 
-/-- the following flag after any operation sequence from any state -/
+/-- the followed getter after any operation sequence from any state -/
 theorem run_following (s : SettableS T) (ops : List (Op T)) :
     (run s ops).following = flagAfter s.following ops := by
   induction ops generalizing s with
@@ -140,10 +181,10 @@ theorem last_request_is_last_successful_set (ops : List (Op T)) :
     (run SettableS.init ops).lastRequest = lastSuccessful ops := by
   rw [run_lastRequest]
   simp only [SettableS.init, lastSuccessful]
-  cases lastSuccessfulFrom false ops <;> rfl
+  cases lastSuccessfulFrom none ops <;> rfl
 
 /-- the specification really is "the last successful one": no successful set anywhere in the list iff `none` -/
-theorem lastSuccessfulFrom_eq_none_iff (f : Bool) (ops : List (Op T)) :
+theorem lastSuccessfulFrom_eq_none_iff (f : Option Nat) (ops : List (Op T)) :
     lastSuccessfulFrom f ops = none ↔
       ∀ pre op post, ops = pre ++ op :: post → succVal (flagAfter f pre) op = none := by
   induction ops generalizing f with
@@ -174,9 +215,9 @@ theorem lastSuccessfulFrom_eq_none_iff (f : Bool) (ops : List (Op T)) :
       rw [hr]
       exact h [] o rest rfl
 
-/-- … and it is `some v` iff the list splits as `pre ++ op :: post` where `op` (executed with the flag reached after
-`pre`) successfully sets `v` and nothing in `post` is a successful set. -/
-theorem lastSuccessfulFrom_eq_some_iff (f : Bool) (ops : List (Op T)) (v : T) :
+/-- … and it is `some v` iff the list splits as `pre ++ op :: post` where `op` (executed while following what is
+followed after `pre`) successfully sets `v` and nothing in `post` is a successful set. -/
+theorem lastSuccessfulFrom_eq_some_iff (f : Option Nat) (ops : List (Op T)) (v : T) :
     lastSuccessfulFrom f ops = some v ↔
       ∃ pre op post, ops = pre ++ op :: post ∧ succVal (flagAfter f pre) op = some v ∧
         lastSuccessfulFrom (flagAfter f (pre ++ [op])) post = none := by
@@ -215,15 +256,20 @@ theorem lastSuccessfulFrom_eq_some_iff (f : Bool) (ops : List (Op T)) (v : T) :
         rw [this]
 
 /-- non-vacuity of the specification: a failed set, a successful one, an update that is not following (ignored),
-follow, a followed update (wins), a later failed followed update and a stop -/
+follow getter 0, a followed update (getter 0's value 8 wins, getter 1's 80 is ignored), follow getter 1 WITHOUT a stop
+in between (now getter 1's value 90 wins over getter 0's 9), a later failed followed update and a stop -/
 example : lastSuccessful
-    [Op.set (1 : Int) (.error (.other 3)), .set 2 (.ok ()), .update (.ok (some ⟨5, 7⟩)) (.ok ()) (.ok ()), .follow,
-     .update (.ok (some ⟨6, 8⟩)) (.ok ()) (.ok ()), .update (.ok (some ⟨7, 9⟩)) (.error .fromNone) (.ok ()),
-     .stopFollowing, .update (.ok (some ⟨8, 10⟩)) (.ok ()) (.ok ())] = some 8 := by rfl
+    [Op.set (1 : Int) (.error (.other 3)), .set 2 (.ok ()), .update (fun _ => .ok (some ⟨5, 7⟩)) (.ok ()) (.ok ()),
+     .follow 0, .update (two (.ok (some ⟨6, 8⟩)) (.ok (some ⟨6, 80⟩))) (.ok ()) (.ok ()),
+     .follow 1, .update (two (.ok (some ⟨6, 9⟩)) (.ok (some ⟨6, 90⟩))) (.ok ()) (.ok ()),
+     .update (fun _ => .ok (some ⟨7, 10⟩)) (.error .fromNone) (.ok ()),
+     .stopFollowing, .update (fun _ => .ok (some ⟨8, 11⟩)) (.ok ()) (.ok ())] = some 90 := by rfl
 example : (run SettableS.init
-    [Op.set (1 : Int) (.error (.other 3)), .set 2 (.ok ()), .update (.ok (some ⟨5, 7⟩)) (.ok ()) (.ok ()), .follow,
-     .update (.ok (some ⟨6, 8⟩)) (.ok ()) (.ok ()), .update (.ok (some ⟨7, 9⟩)) (.error .fromNone) (.ok ()),
-     .stopFollowing, .update (.ok (some ⟨8, 10⟩)) (.ok ()) (.ok ())]).lastRequest = some 8 := by rfl
+    [Op.set (1 : Int) (.error (.other 3)), .set 2 (.ok ()), .update (fun _ => .ok (some ⟨5, 7⟩)) (.ok ()) (.ok ()),
+     .follow 0, .update (two (.ok (some ⟨6, 8⟩)) (.ok (some ⟨6, 80⟩))) (.ok ()) (.ok ()),
+     .follow 1, .update (two (.ok (some ⟨6, 9⟩)) (.ok (some ⟨6, 90⟩))) (.ok ()) (.ok ()),
+     .update (fun _ => .ok (some ⟨7, 10⟩)) (.error .fromNone) (.ok ()),
+     .stopFollowing, .update (fun _ => .ok (some ⟨8, 11⟩)) (.ok ()) (.ok ())]).lastRequest = some 90 := by rfl
 
 /-- a successful set stores exactly its argument, hands it to `impl_set`, and returns `Ok` -/
 theorem successful_set_records (s : SettableS T) (v : T) :
@@ -244,84 +290,101 @@ theorem failed_set_keeps_run (s : SettableS T) (ops : List (Op T)) (v : T) (e : 
     (run s (ops ++ [.set v (.error e)])).lastRequest = (run s ops).lastRequest := by
   rw [run_append]; rfl
 
-/-- while following, `update_following_data` on a present value IS `set` of exactly that value (whatever `impl_set`
-then answers) -/
-theorem follow_forwards_to_set (s : SettableS T) (d : Datum T) (acc : UpdRet) (hf : s.following = true) :
-    s.updateFollowingData (.ok (some d)) acc = s.set d.value acc := by
-  simp [SettableS.updateFollowingData, hf]
+/-- while following getter `i`, `update_following_data` on a present value of THAT getter IS `set` of exactly that
+value (whatever `impl_set` then answers, whatever the other getters return) -/
+theorem follow_forwards_to_set (s : SettableS T) (i : Nat) (gs : Nat → Output T) (d : Datum T) (acc : UpdRet)
+    (hf : s.following = some i) (hg : gs i = .ok (some d)) :
+    s.updateFollowingData gs acc = s.set d.value acc := by
+  simp [SettableS.updateFollowingData, hf, hg]
 
-example : (SettableS.follow (SettableS.init : SettableS Int)).updateFollowingData (.ok (some ⟨3, 42⟩)) (.error (.other 1)) =
-    (⟨none, true⟩, none, .error (.other 1)) := by rfl
+example : (SettableS.follow (SettableS.init : SettableS Int) 1).updateFollowingData
+    (two (.error .fromNone) (.ok (some ⟨3, 42⟩))) (.error (.other 1)) = (⟨none, some 1⟩, none, .error (.other 1)) := by rfl
 
-/-- while following, an update with a present getter value and an accepting `impl_set` hands exactly that value to
-`impl_set`, records it as the last request, keeps following, and returns the update body's own result -/
-theorem follow_forwards (s : SettableS T) (d : Datum T) (iu : UpdRet) (hf : s.following = true) :
-    s.recUpdate (.ok (some d)) (.ok ()) iu = ({ s with lastRequest := some d.value }, some d.value, iu) := by
-  simp [SettableS.recUpdate, SettableS.updateFollowingData, SettableS.set, hf]
+/-- while following getter `i`, an update with a present value of that getter and an accepting `impl_set` hands exactly
+that value to `impl_set`, records it as the last request, keeps following, and returns the update body's own result -/
+theorem follow_forwards (s : SettableS T) (i : Nat) (gs : Nat → Output T) (d : Datum T) (iu : UpdRet)
+    (hf : s.following = some i) (hg : gs i = .ok (some d)) :
+    s.recUpdate gs (.ok ()) iu = ({ s with lastRequest := some d.value }, some d.value, iu) := by
+  simp [SettableS.recUpdate, SettableS.updateFollowingData, SettableS.set, hf, hg]
 
-example : (SettableS.follow (SettableS.init : SettableS Int)).recUpdate (.ok (some ⟨3, 42⟩)) (.ok ()) (.ok ()) =
-    (⟨some 42, true⟩, some 42, .ok ()) := by rfl
+example : (SettableS.follow (SettableS.init : SettableS Int) 0).recUpdate
+    (two (.ok (some ⟨3, 42⟩)) (.ok (some ⟨3, 43⟩))) (.ok ()) (.ok ()) = (⟨some 42, some 0⟩, some 42, .ok ()) := by rfl
 
-/-- an absent getter value forwards nothing and changes nothing (following or not) -/
-theorem follow_absent_noop (s : SettableS T) (acc iu : UpdRet) :
-    s.recUpdate (.ok none) acc iu = (s, none, iu) := by
-  cases hf : s.following <;> simp [SettableS.recUpdate, SettableS.updateFollowingData, hf]
+/-- an absent value of the followed getter forwards nothing and changes nothing (following or not; the other getters
+may return anything) -/
+theorem follow_absent_noop (s : SettableS T) (gs : Nat → Output T) (acc iu : UpdRet)
+    (hg : ∀ i, s.following = some i → gs i = .ok none) :
+    s.recUpdate gs acc iu = (s, none, iu) := by
+  cases hf : s.following with
+  | none => simp [SettableS.recUpdate, SettableS.updateFollowingData, hf]
+  | some i => simp [SettableS.recUpdate, SettableS.updateFollowingData, hf, hg i hf]
 
-/-- while following: a getter error is returned, nothing is forwarded, the state is unchanged; an `impl_set` that
-rejects the forwarded value has its error returned and `last_request` (the whole data) unchanged -/
-theorem follow_err_propagates (s : SettableS T) (e : Err) (d : Datum T) (acc iu : UpdRet)
-    (hf : s.following = true) :
-    s.recUpdate (.error e) acc iu = (s, none, .error e) ∧
-    s.recUpdate (.ok (some d)) (.error e) iu = (s, none, .error e) := by
-  constructor <;> simp [SettableS.recUpdate, SettableS.updateFollowingData, SettableS.set, hf]
+example : ∀ i, (⟨some 5, some 1⟩ : SettableS Int).following = some i →
+    two (.ok (some ⟨1, (2 : Int)⟩)) (.ok none) i = .ok none := by
+  intro i h; cases h; rfl
+example : (⟨some 5, some 1⟩ : SettableS Int).recUpdate (two (.ok (some ⟨1, 2⟩)) (.ok none)) (.ok ()) (.ok ()) =
+    (⟨some 5, some 1⟩, none, .ok ()) := by rfl
 
-example : (SettableS.follow (⟨some 5, false⟩ : SettableS Int)).recUpdate (.error (.other 9)) (.ok ()) (.ok ()) =
-    (⟨some 5, true⟩, none, .error (.other 9)) := by rfl
+/-- while following getter `i`: an error of that getter is returned, nothing is forwarded, the state is unchanged; an
+`impl_set` that rejects the forwarded value has its error returned and `last_request` (the whole data) unchanged -/
+theorem follow_err_propagates (s : SettableS T) (i : Nat) (gs : Nat → Output T) (e : Err) (d : Datum T)
+    (acc iu : UpdRet) (hf : s.following = some i) :
+    (gs i = .error e → s.recUpdate gs acc iu = (s, none, .error e)) ∧
+    (gs i = .ok (some d) → s.recUpdate gs (.error e) iu = (s, none, .error e)) := by
+  constructor <;> intro hg <;> simp [SettableS.recUpdate, SettableS.updateFollowingData, SettableS.set, hf, hg]
 
-/-- when not following, an update forwards nothing, never touches the data and never consults the getter's output
-(even an erroring getter is not seen) -/
-theorem not_following_forwards_nothing (s : SettableS T) (g : Output T) (acc iu : UpdRet)
-    (hf : s.following = false) :
-    s.recUpdate g acc iu = (s, none, iu) := by
+example : (SettableS.follow (⟨some 5, none⟩ : SettableS Int) 0).recUpdate (two (.error (.other 9)) (.ok none)) (.ok ()) (.ok ()) =
+    (⟨some 5, some 0⟩, none, .error (.other 9)) := by rfl
+example : (SettableS.follow (⟨some 5, none⟩ : SettableS Int) 1).recUpdate (two (.error (.other 9)) (.ok (some ⟨1, 2⟩)))
+    (.error (.other 4)) (.ok ()) = (⟨some 5, some 1⟩, none, .error (.other 4)) := by rfl
+
+/-- when not following, an update forwards nothing, never touches the data and never consults any getter's output
+(even erroring getters are not seen) -/
+theorem not_following_forwards_nothing (s : SettableS T) (gs : Nat → Output T) (acc iu : UpdRet)
+    (hf : s.following = none) :
+    s.recUpdate gs acc iu = (s, none, iu) := by
   simp [SettableS.recUpdate, SettableS.updateFollowingData, hf]
 
-example : (SettableS.init : SettableS Int).recUpdate (.error .fromNone) (.ok ()) (.ok ()) =
+example : (SettableS.init : SettableS Int).recUpdate (fun _ => .error .fromNone) (.ok ()) (.ok ()) =
     (SettableS.init, none, .ok ()) := by rfl
 
 /-- an operation list without `follow` -/
 def noFollow : List (Op T) → Prop
   | [] => True
-  | .follow :: _ => False
+  | .follow _ :: _ => False
   | _ :: rest => noFollow rest
 
-theorem flagAfter_false_of_noFollow (ops : List (Op T)) (h : noFollow ops) : flagAfter false ops = false := by
+theorem flagAfter_false_of_noFollow (ops : List (Op T)) (h : noFollow ops) : flagAfter none ops = none := by
   induction ops with
   | nil => rfl
   | cons op rest ih =>
     cases op with
-    | follow => exact absurd h (by simp [noFollow])
+    | follow g => exact absurd h (by simp [noFollow])
     | set v acc => exact ih h
     | stopFollowing => exact ih h
-    | update g acc iu => exact ih h
+    | update gs acc iu => exact ih h
 
 /-- after `stop_following`, and whatever happens afterwards short of a new `follow` (sets, further stops, updates
-with any getter output), every update forwards nothing and leaves the data alone -/
+with any getter outputs), every update forwards nothing and leaves the data alone -/
 theorem stop_following_stops (s : SettableS T) (ops : List (Op T)) (h : noFollow ops)
-    (g : Output T) (acc iu : UpdRet) :
-    (run s.stopFollowing ops).following = false ∧
-    (run s.stopFollowing ops).recUpdate g acc iu = (run s.stopFollowing ops, none, iu) := by
-  have hf : (run s.stopFollowing ops).following = false := by
+    (gs : Nat → Output T) (acc iu : UpdRet) :
+    (run s.stopFollowing ops).following = none ∧
+    (run s.stopFollowing ops).recUpdate gs acc iu = (run s.stopFollowing ops, none, iu) := by
+  have hf : (run s.stopFollowing ops).following = none := by
     rw [run_following]; exact flagAfter_false_of_noFollow ops h
-  exact ⟨hf, not_following_forwards_nothing _ g acc iu hf⟩
+  exact ⟨hf, not_following_forwards_nothing _ gs acc iu hf⟩
 
-example : noFollow [Op.set (1 : Int) (.ok ()), .update (.ok (some ⟨1, 2⟩)) (.ok ()) (.ok ()), .stopFollowing] := by
+example : noFollow [Op.set (1 : Int) (.ok ()), .update (fun _ => .ok (some ⟨1, 2⟩)) (.ok ()) (.ok ()), .stopFollowing] := by
   simp [noFollow]
 
-/-- … and the next `follow` re-enables forwarding -/
-theorem follow_after_stop_forwards (s : SettableS T) (d : Datum T) (iu : UpdRet) :
-    (s.stopFollowing.follow).recUpdate (.ok (some d)) (.ok ()) iu =
-      (⟨some d.value, true⟩, some d.value, iu) := by
-  rfl
+/-- … and the next `follow g` re-enables forwarding, of getter `g`'s values -/
+theorem follow_after_stop_forwards (s : SettableS T) (g : Nat) (gs : Nat → Output T) (d : Datum T) (iu : UpdRet)
+    (hg : gs g = .ok (some d)) :
+    ((s.stopFollowing).follow g).recUpdate gs (.ok ()) iu =
+      (⟨some d.value, some g⟩, some d.value, iu) := by
+  simp [SettableS.recUpdate, SettableS.updateFollowingData, SettableS.set, SettableS.follow, SettableS.stopFollowing, hg]
+
+example : two (.ok none) (.ok (some ⟨1, (2 : Int)⟩)) 1 = .ok (some ⟨1, 2⟩) := rfl
 
 /-- the only operations that ever change `last_request` are successful sets: if an operation is not one, the field is
 unchanged -/
@@ -329,7 +392,100 @@ theorem last_request_changes_only_by_successful_set (s : SettableS T) (op : Op T
     (h : succVal s.following op = none) : (step s op).lastRequest = s.lastRequest := by
   rw [step_lastRequest, h]
 
-example : succVal true (Op.update (.ok none) (.ok ()) (.ok ()) : Op Int) = none := rfl
+example : succVal (some 0) (Op.update (fun _ => .ok none) (.ok ()) (.ok ()) : Op Int) = none := rfl
+/-- getter 1 has a present value, but getter 0 is the followed one and it is absent -/
+example : succVal (some 0) (Op.update (two (.ok none) (.ok (some ⟨1, 2⟩))) (.ok ()) (.ok ()) : Op Int) = none := rfl
+
+/-! ### which getter is forwarded -/
+
+/-- **the result of `update_following_data` does not depend on the outputs of getters other than the followed one**:
+two output assignments that agree on the followed getter (if any) give the same new data, the same forwarded value and
+the same return value -/
+theorem update_uses_only_followed (s : SettableS T) (gs gs' : Nat → Output T) (acc : UpdRet)
+    (h : ∀ i, s.following = some i → gs i = gs' i) :
+    s.updateFollowingData gs acc = s.updateFollowingData gs' acc := by
+  cases hf : s.following with
+  | none => simp only [SettableS.updateFollowingData, hf]
+  | some i => simp only [SettableS.updateFollowingData, hf, h i hf]
+
+/-- non-vacuity: following getter 1, the two assignments differ on getter 0 only -/
+example : ∀ i, (⟨none, some 1⟩ : SettableS Int).following = some i →
+    two (.ok (some ⟨1, (2 : Int)⟩)) (.ok (some ⟨1, 3⟩)) i = two (.error .fromNone) (.ok (some ⟨1, 3⟩)) i := by
+  intro i h; cases h; rfl
+/-- … and it does depend on the followed one -/
+example : ((⟨none, some 1⟩ : SettableS Int).updateFollowingData (two (.ok none) (.ok (some ⟨1, 3⟩))) (.ok ())).2.1 = some 3 ∧
+    ((⟨none, some 1⟩ : SettableS Int).updateFollowingData (two (.ok none) (.ok (some ⟨1, 4⟩))) (.ok ())).2.1 = some 4 :=
+  ⟨rfl, rfl⟩
+
+/-- the same for the whole `update` of the recording settable -/
+theorem rec_update_uses_only_followed (s : SettableS T) (gs gs' : Nat → Output T) (acc iu : UpdRet)
+    (h : ∀ i, s.following = some i → gs i = gs' i) :
+    s.recUpdate gs acc iu = s.recUpdate gs' acc iu := by
+  simp only [SettableS.recUpdate, update_uses_only_followed s gs gs' acc h]
+
+/-- **`follow` replaces the followed getter.** After `follow g1` then `follow g2` (no `stop_following` in between) the
+settable's data are those of a settable that only ever followed `g2`; hence after ANY further operations every update
+— for all getter outputs, all `impl_set` answers, all update-body results — yields the same data, forwards the same
+value and returns the same result as for the settable that only followed `g2`. -/
+theorem follow_replaces (s : SettableS T) (g1 g2 : Nat) (ops : List (Op T)) (gs : Nat → Output T) (acc iu : UpdRet) :
+    (s.follow g1).follow g2 = s.follow g2 ∧
+    (run ((s.follow g1).follow g2) ops).recUpdate gs acc iu = (run (s.follow g2) ops).recUpdate gs acc iu :=
+  ⟨rfl, rfl⟩
+
+/-- `follow g1`, `follow g2`, update: getter 1's value (90) is forwarded, not getter 0's (9) -/
+example : (((SettableS.init : SettableS Int).follow 0).follow 1).recUpdate
+    (two (.ok (some ⟨6, 9⟩)) (.ok (some ⟨6, 90⟩))) (.ok ()) (.ok ()) = (⟨some 90, some 1⟩, some 90, .ok ()) := by rfl
+
+/-- an operation list without `follow` and without `stop_following` -/
+def keepsFollowed : List (Op T) → Prop
+  | [] => True
+  | .follow _ :: _ => False
+  | .stopFollowing :: _ => False
+  | _ :: rest => keepsFollowed rest
+
+theorem flagAfter_of_keepsFollowed (f : Option Nat) (ops : List (Op T)) (h : keepsFollowed ops) :
+    flagAfter f ops = f := by
+  induction ops with
+  | nil => rfl
+  | cons op rest ih =>
+    cases op with
+    | follow g => exact absurd h (by simp [keepsFollowed])
+    | stopFollowing => exact absurd h (by simp [keepsFollowed])
+    | set v acc => exact ih h
+    | update gs acc iu => exact ih h
+
+/-- **the MOST RECENTLY followed getter is the one forwarded**, in full generality: whatever happened before (`pre`:
+any operations, including following other getters, with or without stops), after `follow g` and any further sets and
+updates (`post`), `update_following_data` is decided by getter `g`'s output alone: its error propagates, its absent
+value forwards nothing, its present value is handed to `set`. -/
+theorem latest_follow_wins (s : SettableS T) (pre post : List (Op T)) (g : Nat) (hpost : keepsFollowed post)
+    (gs : Nat → Output T) (acc : UpdRet) :
+    (run s (pre ++ .follow g :: post)).following = some g ∧
+    (run s (pre ++ .follow g :: post)).updateFollowingData gs acc =
+      (match gs g with
+       | .error e => (run s (pre ++ .follow g :: post), none, .error e)
+       | .ok none => (run s (pre ++ .follow g :: post), none, .ok ())
+       | .ok (some d) => (run s (pre ++ .follow g :: post)).set d.value acc) := by
+  have hf : (run s (pre ++ .follow g :: post)).following = some g := by
+    rw [run_append, run_cons, run_following, step_following]
+    exact flagAfter_of_keepsFollowed _ post hpost
+  exact ⟨hf, (update_following_data_spec _ gs acc).1 g hf⟩
+
+example : keepsFollowed [Op.set (1 : Int) (.ok ()), .update (fun _ => .ok (some ⟨1, 2⟩)) (.ok ()) (.ok ())] := by
+  simp [keepsFollowed]
+example : (run (SettableS.init : SettableS Int)
+    ([.follow 0, .update (fun _ => .ok (some ⟨1, 2⟩)) (.ok ()) (.ok ())] ++ .follow 1 :: [.set 3 (.ok ())])).updateFollowingData
+    (two (.ok (some ⟨1, 10⟩)) (.ok (some ⟨1, 11⟩))) (.ok ()) = (⟨some 11, some 1⟩, some 11, .ok ()) := by rfl
+
+/-- **`stop_following` then `follow g` behaves like `follow g`**: same data, hence the same behaviour under all later
+operations and updates -/
+theorem follow_after_stop (s : SettableS T) (g : Nat) (ops : List (Op T)) (gs : Nat → Output T) (acc iu : UpdRet) :
+    (s.stopFollowing).follow g = s.follow g ∧
+    (run ((s.stopFollowing).follow g) ops).recUpdate gs acc iu = (run (s.follow g) ops).recUpdate gs acc iu :=
+  ⟨rfl, rfl⟩
+
+example : (((⟨some 4, some 0⟩ : SettableS Int).stopFollowing).follow 1).recUpdate
+    (two (.ok (some ⟨6, 9⟩)) (.ok (some ⟨6, 90⟩))) (.ok ()) (.ok ()) = (⟨some 90, some 1⟩, some 90, .ok ()) := by rfl
 
 /-! ## B. `GetterFromHistory` -/
 
@@ -462,51 +618,69 @@ theorem stream_constant_getter_get (v : T) (now : Int) (e : Err) :
 /-- a fresh constant getter returns the constructor's value, has no last request and follows nothing -/
 theorem constant_getter_init (v : T) (now : Int) :
     (ConstGetterS.init v).get (.ok now) = .ok (some ⟨now, v⟩) ∧
-    (ConstGetterS.init v).sd.lastRequest = none ∧ (ConstGetterS.init v).sd.following = false := ⟨rfl, rfl, rfl⟩
+    (ConstGetterS.init v).sd.lastRequest = none ∧ (ConstGetterS.init v).sd.following = none := ⟨rfl, rfl, rfl⟩
 
 /-- after `set v`: the value is `v`, it is what `get` returns, and it is the last request; following is untouched -/
 theorem constant_getter_set (s : ConstGetterS T) (v : T) (now : Int) :
     (s.set v).value = v ∧ (s.set v).sd.lastRequest = some v ∧ (s.set v).sd.following = s.sd.following ∧
     (s.set v).get (.ok now) = .ok (some ⟨now, v⟩) := ⟨rfl, rfl, rfl, rfl⟩
 
-/-- `update` while following: a present value becomes the value (and the last request); absent is ignored; an error
-is returned with the state unchanged.  Not following: nothing happens. -/
-theorem constant_getter_update (s : ConstGetterS T) (d : Datum T) (e : Err) (g : Output T) :
-    (s.sd.following = true → s.update (.ok (some d)) = (s.set d.value, .ok ())) ∧
-    (s.update (.ok none) = (s, .ok ())) ∧
-    (s.sd.following = true → s.update (.error e) = (s, .error e)) ∧
-    (s.sd.following = false → s.update g = (s, .ok ())) := by
+/-- `update` while following getter `i`: a present value of that getter becomes the value (and the last request);
+absent is ignored; its error is returned with the state unchanged.  Not following: nothing happens.  The outputs of
+the getters that are not followed never matter. -/
+theorem constant_getter_update (s : ConstGetterS T) (i : Nat) (d : Datum T) (e : Err) (gs : Nat → Output T) :
+    (s.sd.following = some i → gs i = .ok (some d) → s.update gs = (s.set d.value, .ok ())) ∧
+    ((∀ j, s.sd.following = some j → gs j = .ok none) → s.update gs = (s, .ok ())) ∧
+    (s.sd.following = some i → gs i = .error e → s.update gs = (s, .error e)) ∧
+    (s.sd.following = none → s.update gs = (s, .ok ())) := by
   refine ⟨?_, ?_, ?_, ?_⟩
-  · intro hf; simp [ConstGetterS.update, hf]
-  · cases hf : s.sd.following <;> simp [ConstGetterS.update, hf]
-  · intro hf; simp [ConstGetterS.update, hf]
+  · intro hf hg; simp [ConstGetterS.update, hf, hg]
+  · intro hg
+    cases hf : s.sd.following with
+    | none => simp [ConstGetterS.update, hf]
+    | some j => simp [ConstGetterS.update, hf, hg j hf]
+  · intro hf hg; simp [ConstGetterS.update, hf, hg]
   · intro hf; simp [ConstGetterS.update, hf]
 
-example : (ConstGetterS.mk (1 : Int) ⟨none, true⟩).update (.ok (some ⟨4, 9⟩)) = (⟨9, ⟨some 9, true⟩⟩, .ok ()) := by rfl
-example : (ConstGetterS.mk (1 : Int) ⟨none, true⟩).update (.error (.other 2)) =
-    (⟨1, ⟨none, true⟩⟩, .error (.other 2)) := by rfl
-example : (ConstGetterS.mk (1 : Int) ⟨none, false⟩).update (.error (.other 2)) = (⟨1, ⟨none, false⟩⟩, .ok ()) := by rfl
+example : (ConstGetterS.mk (1 : Int) ⟨none, some 1⟩).update (two (.ok (some ⟨4, 8⟩)) (.ok (some ⟨4, 9⟩))) =
+    (⟨9, ⟨some 9, some 1⟩⟩, .ok ()) := by rfl
+example : (ConstGetterS.mk (1 : Int) ⟨none, some 0⟩).update (two (.error (.other 2)) (.ok (some ⟨4, 9⟩))) =
+    (⟨1, ⟨none, some 0⟩⟩, .error (.other 2)) := by rfl
+example : (ConstGetterS.mk (1 : Int) ⟨none, some 1⟩).update (two (.error (.other 2)) (.ok none)) =
+    (⟨1, ⟨none, some 1⟩⟩, .ok ()) := by rfl
+example : (ConstGetterS.mk (1 : Int) ⟨none, none⟩).update (fun _ => .error (.other 2)) = (⟨1, ⟨none, none⟩⟩, .ok ()) := by rfl
+
+/-- the constant getter's `update` does not depend on the outputs of getters other than the followed one -/
+theorem constant_getter_update_uses_only_followed (s : ConstGetterS T) (gs gs' : Nat → Output T)
+    (h : ∀ i, s.sd.following = some i → gs i = gs' i) : s.update gs = s.update gs' := by
+  cases hf : s.sd.following with
+  | none => simp only [ConstGetterS.update, hf]
+  | some i => simp only [ConstGetterS.update, hf, h i hf]
+
+example : ∀ i, (ConstGetterS.mk (1 : Int) ⟨none, some 1⟩).sd.following = some i →
+    two (.ok (some ⟨1, (2 : Int)⟩)) (.ok (some ⟨1, 3⟩)) i = two (.error .fromNone) (.ok (some ⟨1, 3⟩)) i := by
+  intro i h; cases h; rfl
 
 /-- operations on a constant getter (its `impl_set` cannot fail, its `update` body is just `update_following_data`) -/
 inductive COp (T : Type) where
   | set (v : T)
-  | follow
+  | follow (g : Nat)
   | stopFollowing
-  | update (g : Output T)
+  | update (gs : Nat → Output T)
 
 def cstep (s : ConstGetterS T) : COp T → ConstGetterS T
   | .set v => s.set v
-  | .follow => { s with sd := s.sd.follow }
+  | .follow g => { s with sd := s.sd.follow g }
   | .stopFollowing => { s with sd := s.sd.stopFollowing }
-  | .update g => (s.update g).1
+  | .update gs => (s.update gs).1
 def crun (s : ConstGetterS T) (ops : List (COp T)) : ConstGetterS T := ops.foldl cstep s
 
 /-- the same operation seen as an operation of the generic settable with an always-accepting `impl_set` -/
 def COp.toOp : COp T → Op T
   | .set v => .set v (.ok ())
-  | .follow => .follow
+  | .follow g => .follow g
   | .stopFollowing => .stopFollowing
-  | .update g => .update g (.ok ()) (.ok ())
+  | .update gs => .update gs (.ok ()) (.ok ())
 
 /-- the constant getter's settable data evolve exactly like the generic settable's with an accepting `impl_set`, and
 `update` returns what the generic `update_following_data` returns -/
@@ -518,24 +692,28 @@ theorem constant_getter_refines_settable (s : ConstGetterS T) (op : COp T) :
   | mk lr fl =>
   cases op with
   | set v => rfl
-  | follow => rfl
+  | follow g => rfl
   | stopFollowing => rfl
-  | update g =>
-    cases fl
-    · rfl
-    · cases g with
+  | update gs =>
+    cases fl with
+    | none => rfl
+    | some i =>
+      simp only [cstep, ConstGetterS.update, COp.toOp, step, SettableS.recUpdate, SettableS.updateFollowingData]
+      cases gs i with
       | error e => rfl
       | ok o => cases o <;> rfl
 
-theorem constant_getter_update_ret (s : ConstGetterS T) (g : Output T) :
-    (s.update g).2 = (s.sd.updateFollowingData g (.ok ())).2.2 := by
+theorem constant_getter_update_ret (s : ConstGetterS T) (gs : Nat → Output T) :
+    (s.update gs).2 = (s.sd.updateFollowingData gs (.ok ())).2.2 := by
   cases s with
   | mk v sd =>
   cases sd with
   | mk lr fl =>
-  cases fl
-  · rfl
-  · cases g with
+  cases fl with
+  | none => rfl
+  | some i =>
+    simp only [ConstGetterS.update, SettableS.updateFollowingData]
+    cases gs i with
     | error e => rfl
     | ok o => cases o <;> rfl
 
@@ -547,14 +725,14 @@ theorem cstep_value (s : ConstGetterS T) (op : COp T) :
   | mk lr fl =>
   cases op with
   | set v => rfl
-  | follow => rfl
+  | follow g => rfl
   | stopFollowing => rfl
-  | update g =>
-    cases fl
-    · cases g with
-      | error e => rfl
-      | ok o => cases o <;> rfl
-    · cases g with
+  | update gs =>
+    cases fl with
+    | none => rfl
+    | some i =>
+      simp only [cstep, ConstGetterS.update, COp.toOp, succVal]
+      cases gs i with
       | error e => rfl
       | ok o => cases o <;> rfl
 
@@ -589,13 +767,20 @@ theorem constant_getter_get_after_ops (v₀ : T) (ops : List (COp T)) (now : Int
   show (Except.ok (some (Datum.mk now (crun (ConstGetterS.init v₀) ops).value)) : Output T) = _
   rw [h]
   simp only [lastSuccessful, ConstGetterS.init, SettableS.init]
-  cases lastSuccessfulFrom false (List.map COp.toOp ops) <;> rfl
+  cases lastSuccessfulFrom none (List.map COp.toOp ops) <;> rfl
 
 example : (crun (ConstGetterS.init (0 : Int))
-    [.update (.ok (some ⟨1, 5⟩)), .set 2, .follow, .update (.ok none), .update (.ok (some ⟨2, 6⟩)),
-     .update (.error .fromNone), .stopFollowing, .update (.ok (some ⟨3, 7⟩))]).get (.ok 11) = .ok (some ⟨11, 6⟩) := by rfl
-example : (crun (ConstGetterS.init (4 : Int)) [.update (.ok (some ⟨1, 5⟩)), .stopFollowing]).get (.ok 11) =
+    [.update (fun _ => .ok (some ⟨1, 5⟩)), .set 2, .follow 0, .update (fun _ => .ok none),
+     .update (two (.ok (some ⟨2, 6⟩)) (.ok (some ⟨2, 60⟩))), .follow 1,
+     .update (two (.ok (some ⟨2, 7⟩)) (.ok (some ⟨2, 70⟩))),
+     .update (fun _ => .error .fromNone), .stopFollowing, .update (fun _ => .ok (some ⟨3, 8⟩))]).get (.ok 11) =
+    .ok (some ⟨11, 70⟩) := by rfl
+example : (crun (ConstGetterS.init (4 : Int)) [.update (fun _ => .ok (some ⟨1, 5⟩)), .stopFollowing]).get (.ok 11) =
     .ok (some ⟨11, 4⟩) := by rfl
+
+/-- the constant getter too: `follow g1` then `follow g2` is `follow g2` (so every later `get`/`update` agrees) -/
+theorem constant_getter_follow_replaces (s : ConstGetterS T) (g1 g2 : Nat) (ops : List (COp T)) :
+    crun s (.follow g1 :: .follow g2 :: ops) = crun s (.follow g2 :: ops) := rfl
 
 /-! ## D. `TimeGetterFromGetter` -/
 
